@@ -106,6 +106,7 @@ class Flags(object):
         self.fanout_handled = 0         # fan-out failures that were then retried or caught by the fan-out state
         self.marker_value = False       # a branch output equals an in-band marker string
         self.handled_tie = False        # simultaneous branch failures under a fan-out with its own Retry/Catch
+        self.cancel_tie = False         # a sibling of a failed branch does something at the very instant of the failure
         self.notes = []
 
     def as_dict(self):
@@ -432,13 +433,15 @@ class Outcome(object):
 
 class Branch(object):
     """Result of running one (sub) state machine to its end."""
-    __slots__ = ("ok", "value", "t", "err")
+    __slots__ = ("ok", "value", "t", "err", "tr", "rq")
 
     def __init__(self, ok, value, t, err=None):
         self.ok = ok
         self.value = value
         self.t = t
         self.err = err   # StateError
+        self.tr = None   # slice of out.transitions written while this branch ran
+        self.rq = None   # slice of out.requests
 
 
 class Interp(object):
@@ -703,16 +706,51 @@ class Interp(object):
     def run_branch(self, machine, data, t, lane=None):
         prev = self.lane
         self.lane = prev + (lane,)
+        i0, r0 = len(self.out.transitions), len(self.out.requests)
         try:
             b = self.run_machine(machine, data, t)
         except StateError as e:
             b = Branch(False, None, getattr(e, "t", t), e)
         finally:
             self.lane = prev
+        b.tr = (i0, len(self.out.transitions))
+        b.rq = (r0, len(self.out.requests))
         if not b.ok:
             self.flags.fanout_failures += 1
             self.flags.max_fail_depth = max(self.flags.max_fail_depth, len(prev) + 1)
         return b
+
+    def cancel_siblings(self, branches, first, tmin):
+        """
+        What the siblings of the branch that failed (first, at tmin) would have done after that instant does not
+        happen: they are cancelled.  Their later transitions and requests are struck out (None, removed at the end);
+        anything of theirs that falls exactly on tmin is left in and the run is marked as undecided there.
+        """
+        if len(first) != 1:
+            self.flags.cancel_tie = True
+            return
+        for b in branches:
+            if b is first[0] or b.tr is None:
+                continue
+            for i in range(b.tr[0], b.tr[1]):
+                x = self.out.transitions[i]
+                if x is None:
+                    continue
+                if x[0] > tmin:
+                    self.out.transitions[i] = None
+                elif x[0] == tmin:
+                    self.flags.cancel_tie = True
+            for i in range(b.rq[0], b.rq[1]):
+                x = self.out.requests[i]
+                if x is None:
+                    continue
+                if x[0] > tmin:
+                    self.out.requests[i] = None
+                    if len(self.script.get(x[1]) or []) > 1:
+                        # the struck-out call consumed a scripted outcome in the model only
+                        self.flags.ambiguous_calls = True
+                elif x[0] == tmin:
+                    self.flags.cancel_tie = True
 
     def join(self, name, branches, t, handled=False):
         fails = [b for b in branches if not b.ok]
@@ -727,6 +765,7 @@ class Interp(object):
             if len(fails) > 1:
                 self.flags.tie = True
             e = StateError(tuple(first[0].err.names) if len(fails) == 1 else tuple(names), first[0].err.cause)
+            self.cancel_siblings(branches, first, tmin)
             if handled and len(fails) > 1:
                 # what the fan-out's own Retry/Catch does depends on WHICH failure it sees: under the canonical
                 # schedule that is the strictly earliest one (the later ones are cancelled before they happen);
@@ -857,10 +896,14 @@ def run_model(definition, input_, script, execution_ttl=86400, exec_name="e", sm
         b = it.run_machine(definition, copy.deepcopy(input_), 0.0)
     except ModelUnsupported as e:
         out.unsupported = str(e)
+        out.transitions = [x for x in out.transitions if x is not None]
+        out.requests = [x for x in out.requests if x is not None]
         return out
     except StateError as e:
         b = Branch(False, None, getattr(e, "t", 0.0), e)
     out.t_end = b.t
+    out.transitions = [x for x in out.transitions if x is not None]
+    out.requests = [x for x in out.requests if x is not None]
     if b.ok:
         out.status = "SUCCEEDED"
         out.output = b.value
